@@ -3746,7 +3746,14 @@ fn analyze_builtin(
 			let argument = accept_one_argument(arguments, location)?;
 			typer.contextual_type = contextual_type;
 			let argument = argument.analyze(typer);
-			let argument_type = argument.value_type().transpose()?;
+			// Keep the argument if something is wrong with it,
+			// so that whatever that is will be reported.
+			let argument_type = match argument.value_type()
+			{
+				Some(Ok(argument_type)) => Some(argument_type),
+				Some(Err(_poison)) => None,
+				None => None,
+			};
 			Ok((vec![argument], argument_type))
 		}
 		Builtin::IncludeBytes =>
